@@ -7,7 +7,8 @@ Import ListNotations.
 (* calls: the single-flow operations of the theorems, plus multi-flow calls of the same model functions *)
 Inductive cop :=
 | Single (o : op)
-| AddMany (fs : list flow) | UpdateMany (fs : list flow) | RemoveMany (ids : list N).
+| AddMany (fs : list flow) | UpdateMany (fs : list flow) | RemoveMany (ids : list N)
+| MutateOnly (fs : list flow).      (* attributes change, the view is not (yet) told *)
 
 Inductive obs :=
 | Obs (visible : list N) (focus : option N) (settings : list N) (store : list N) (log : list sig)
@@ -21,6 +22,7 @@ Definition do_cop (c : cop) : M unit :=
   | AddMany fs => add fs
   | UpdateMany fs => mutate fs ;;; update (map fid fs)
   | RemoveMany ids => remove ids
+  | MutateOnly fs => mutate fs
   end.
 
 Definition sig_eqb (a b : sig) : bool :=
